@@ -219,6 +219,26 @@ def eval_funcs(funcs, atcoords, points, deriv=False):
     return out
 
 
+def eval_funcs_abs(funcs, atcoords, points):
+    """Sum of the absolute values of all primitive x polynomial-term contributions of each function at the points.
+
+    This is the conditioning bound of a function value (cancellation between primitives of one contraction and between
+    the terms of a solid harmonic is not hidden), used to scale tolerances.
+    """
+    atcoords = np.asarray(atcoords, dtype=float)
+    points = np.asarray(points, dtype=float)
+    out = np.zeros((len(funcs), len(points)))
+    for i, f in enumerate(funcs):
+        d = points - atcoords[f.icenter]
+        r2 = (d * d).sum(axis=1)
+        rad = (np.abs(f.dn)[:, None] * np.exp(-np.outer(f.exps, r2))).sum(axis=0)
+        ang = np.zeros(len(points))
+        for (a, b, c), coef in f.poly.items():
+            ang += np.abs(coef * d[:, 0] ** a * d[:, 1] ** b * d[:, 2] ** c)
+        out[i] = ang * rad
+    return out
+
+
 def eval_basis(obasis, atcoords, points):
     return eval_funcs(expand(obasis), atcoords, points)
 
